@@ -20,7 +20,7 @@ def _kv(op):
 
 def c01_stats(cases, model):
     ops, outcomes, errors = collections.Counter(), collections.Counter(), collections.Counter()
-    hello_kinds, algs, muts, url_dot, modes, accepted_by = (collections.Counter() for _ in range(6))
+    hello_kinds, algs, muts, url_dot, modes, accepted_by, races = (collections.Counter() for _ in range(7))
     lens = []
     for c in cases:
         lens.append(len(c["ops"]))
@@ -33,6 +33,11 @@ def c01_stats(cases, model):
                     modes[_kv(o).get("mode", "?")] += 1
                 continue
             head = r[0] if r else "?"
+            if verb == "rrace":
+                kv = _kv(o)
+                head = head.split(":")[0]
+                queued = "queued" if "queued=1" in i else ("not-queued" if "queued=0" in i else "-")
+                races["%s first=%s -> %s (%s)" % (kv.get("end"), kv.get("first"), head, queued)] += 1
             outcomes[verb + ":" + head] += 1
             if head == "error" and len(r) > 1:
                 errors[r[1]] += 1
@@ -55,6 +60,7 @@ def c01_stats(cases, model):
     return dict(verdicts=_verdict_stats(cases, model), ops=dict(ops), outcomes=dict(outcomes), error_codes=dict(errors),
                 hello_kinds=dict(hello_kinds), accepted_hello_kinds=dict(accepted_by), token_alg_header_vs_signer=dict(algs),
                 token_mutations=dict(muts), dot_segment_urls=dict(url_dot), config_modes=dict(modes),
+                resume_races=dict(races),
                 max_case_len=max(lens or [0]), mean_case_len=round(sum(lens) / max(1, len(lens)), 1))
 
 
@@ -63,12 +69,13 @@ def c01_nontrivial(c, ms):
     acc = ref = False
     for o, i in zip(c["ops"], c.get("impl") or []):
         verb = o.split(" ", 1)[0]
-        if verb not in ("hello", "msg", "bye"):
+        if verb not in ("hello", "msg", "bye", "rrace"):
             continue
         r = _canon(i).split()
         if verb == "hello" and r[:1] == ["hello"]:
             acc = True
-        if r[:1] == ["error"]:
+        if r[:1] == ["error"] or (verb == "rrace" and r[:1] != ["skip"]):
+            # a race that took place ended a session under a resume: refused, or accepted and ended
             ref = True
     return acc and ref
 
@@ -79,6 +86,14 @@ CONFIG = dict(
     modules=["SigModel.Props.C01"],
     theorems=[_T + t for t in [
         "C01_facts_as_modelled",
+        "C01_resume_one_critical_section",
+        "C01_resume_attach_path",
+        "C01_register_one_critical_section",
+        "C01_limit_check_atomic",
+        "C01_expect_hello_sections",
+        "C01_resume_live_under_interleaving",
+        "C01_resume_split_would_resume_dead_session",
+        "C01_race_rest_both_orders",
         "C01_session_needs_credentials",
         "C01_session_needs_credentials_run",
         "C01_nothing_before_hello",
@@ -108,8 +123,12 @@ CONFIG = dict(
          "malformed segments), protocol 1.0 tickets of the right/wrong tenant, internal tokens (random 0..64 bytes, wrong/empty "
          "secret, truncated/upper-case hex), URL mutations (other prefix on the same host, dot segments, encoded dots, other host/"
          "port/scheme, userinfo, unparsable), resume ids (private, public, mutated, foreign, junk, closed session), brute-force "
-         "bursts from one address / one IPv6 /64, session limits, and random frames of every message type before hello (valid, invalid, "
-         "undecodable, truncated JSON, junk bytes, binary); a case is non-trivial if the real hub "
+         "bursts from one address / one IPv6 /64, session limits, random frames of every message type before hello (valid, invalid, "
+         "undecodable, truncated JSON, junk bytes, binary), and resume races (scripted opening: sessions on connections, one of them "
+         "detached or about to say bye, random other traffic; finale `rrace`: a hello with the session's resume id issued while the "
+         "session ends — bye of its connection or Session.Close() as expiry/kick do — with the harness holding Hub.mu until both are "
+         "queued on it in a chosen order, or free-running); after every step the hub's tables are compared at rest (Hub.sessions, "
+         "Hub.clients, Hub.expectHelloClients); a case is non-trivial if the real hub "
          "accepted at least one hello and refused at least one request; distinct = distinct op lists",
     trusted_base=[
         "net/url parsing and URL.String() (URL facts are computed by the generator with the standard library)",
@@ -117,6 +136,9 @@ CONFIG = dict(
         "version pinned by the generated fact jwtLibVersion); SigningMethod.Verify supplies the signature oracle bits",
         "crypto/hmac + crypto/sha256 (internal token oracle), SessionIdCodec.DecodePrivate (does a resume id decode: C15)",
         "testing/synctest virtual clock (go1.26) and in-memory net.Pipe connections instead of TCP/TLS",
+        "the lock-section extractor tools/extract/authlocks.go (go/ast walk of the control-flow paths of processHello's resume "
+        "branch, processRegister, startExpectHello, Backend.AddSession; constructs it does not understand are reported as broken tie) "
+        "and, for the race step, the layout of sync.RWMutex of go1.26 (queue lengths read from the mutex)",
         "the fake Nextcloud web server resolves dot segments before routing, as nginx/Apache do",
     ],
     assumptions=[
@@ -125,8 +147,12 @@ CONFIG = dict(
         "Routes: for a URL without dot segments the web server that answers is the owner of every configured backend whose "
         "URL is a prefix of it (prefix routing, prefix-free configuration per host)",
         "capabilities caching/HTTP, gRPC proxy-resume (tryProxyResume), the etcd client and its watch (the etcd backend storage "
-        "itself is driven through EtcdKeyUpdated in key order, as at start-up), session expiry and "
-        "connections closing during a hello are not modelled",
+        "itself is driven through EtcdKeyUpdated in key order, as at start-up) and connections closing during a hello are not "
+        "modelled; the end of a session while a hello with its resume id is processed is covered by the regenerated critical "
+        "sections (C01_resume_one_critical_section -> C01_resume_live_under_interleaving, adversary = arbitrary change of the hub "
+        "outside the sections) and by the rrace step judged at rest; session expiry by the clock itself is not run (frozen clock: "
+        "the harness calls Session.Close() as the housekeeping does)",
+        "Go's sync.RWMutex gives mutual exclusion between a section held for writing and every other section of the same mutex",
         "a backend answering {type: auth} without auth object is trusted input (crashes processRegister; not a client input)",
     ],
 )
@@ -138,9 +164,12 @@ MANIFEST = dict(
          "switch, parser options, leeway, minimum random length, error mappings, pre-auth dispatch): a hello reply with a session "
          "id implies the statement's four-way credential disjunction, for every state, message and op sequence; every other frame "
          "on an unauthenticated connection is answered with an error and leaves the state unchanged; an unconfigured backend URL "
-         "never yields a session; converse acceptance lemmas. Tied to the code by extraction plus a differential run of the real "
+         "never yields a session; converse acceptance lemmas; the check-then-act steps of the path (resume: lookup, id comparison, "
+         "attach; register: connection check and table insert; session limit; hello timeout list) are single critical sections "
+         "of the guarding mutex — regenerated per control-flow path, decided, and the resume theorem is stated against an adversary "
+         "that changes the hub wherever the mutex is not held. Tied to the code by extraction plus a differential run of the real "
          "Hub (virtual clock, in-memory network, own fake Nextcloud tenants with per-tenant keys) with the spec judged on the "
-         "implementation's replies.",
+         "implementation's replies and on the hub's tables at rest, including resumes racing with the end of their session.",
     note="Trusted: Lean kernel, extractor, harness, net/url, golang-jwt (restated), crypto oracles. Unforgeability is assumed, "
          "not proved. Found and fixed: backend URLs with dot segments were matched to a configured backend by string prefix while "
          "the request went to another server of the host; a backend received from etcd with its url written without the final slash "
